@@ -308,6 +308,25 @@ func buildVodRoot() (string, error) {
 	if err := copyTree(bundledRoot(), root); err != nil {
 		return "", err
 	}
+	// an audio-only asset with two audio representations of different segment durations (4 x 2 s and 1 x 8 s, the bundled
+	// audio tracks): which one is the reference must not depend on the server instance (only where instances are compared)
+	if curProp == "C07" || curProp == "C15" || curProp == "" {
+		ao := filepath.Join(root, "gen_audioonly")
+		if err := copyTree(filepath.Join(bundledRoot(), "testpic_2s", "A48"), filepath.Join(ao, "A2")); err == nil {
+			if err := copyTree(filepath.Join(bundledRoot(), "testpic_8s", "A48"), filepath.Join(ao, "A8")); err == nil {
+				mpd := `<?xml version="1.0" encoding="utf-8"?>
+<MPD xmlns="urn:mpeg:dash:schema:mpd:2011" profiles="urn:mpeg:dash:profile:isoff-live:2011" minBufferTime="PT2S" type="static" mediaPresentationDuration="PT8S">
+<ProgramInformation><Title>gen_audioonly (generated by /verif/harness)</Title></ProgramInformation>
+<Period id="p0" start="PT0S"><AdaptationSet contentType="audio" mimeType="audio/mp4" lang="en" segmentAlignment="true" startWithSAP="1">
+<SegmentTemplate startNumber="1" timescale="48000" duration="96000" initialization="$RepresentationID$/init.mp4" media="$RepresentationID$/$Number$.m4s"/>
+<Representation id="A2" codecs="mp4a.40.2" bandwidth="48000" audioSamplingRate="48000"/></AdaptationSet>
+<AdaptationSet contentType="audio" mimeType="audio/mp4" lang="sv" segmentAlignment="true" startWithSAP="1">
+<SegmentTemplate startNumber="1" timescale="48000" duration="384000" initialization="$RepresentationID$/init.mp4" media="$RepresentationID$/$Number$.m4s"/>
+<Representation id="A8" codecs="mp4a.40.2" bandwidth="36997" audioSamplingRate="48000"/></AdaptationSet></Period></MPD>`
+				_ = os.WriteFile(filepath.Join(ao, "Manifest.mpd"), []byte(mpd), 0o644)
+			}
+		}
+	}
 	for _, L := range genLayouts {
 		if curProp != "" && strings.Contains(" "+L.notFor+" ", " "+curProp+" ") {
 			continue
